@@ -4,6 +4,7 @@ import (
 	"bytes"
 	"encoding/hex"
 	"fmt"
+	"reflect"
 	"sort"
 	"strings"
 	"time"
@@ -427,6 +428,10 @@ func (c *ctx) caseM(b *batch, l *Loaded, name string) error {
 	if after := l.Reg.FromStruct(name, msg).String(); after != vs {
 		c.disagree(Disagreement{Kind: "argument-modified", Check: "marshal-leaves-message", Case: cs(nil), Got: map[string]string{"after": short(after)}})
 	}
+	// a nil element of a repeated message field is written as an empty element, never dropped (C08)
+	if c.want("enc") {
+		c.nilElementOracle(l, name, msg, cs)
+	}
 	// reference parses it back to the same values and presence (C01)
 	if c.want("enc") {
 		ref := l.Ref.New(name)
@@ -565,7 +570,7 @@ func dirtyBuffers(c *ctx, n int) [][]byte {
 	}
 	out := [][]byte{nil, ff(n), ff(n + 7)[:n], ff(2*n + 64)}
 	if n > 3 {
-		out = append(out, ff(n/2), ff(n - 1), ff(n + 1)[:1])
+		out = append(out, ff(n/2), ff(n-1), ff(n + 1)[:1])
 	}
 	return out
 }
@@ -852,4 +857,43 @@ func wfField(f *schema.File, fd *schema.Field, typ protowire.Type, raw []byte, d
 		return wfPacked(kind, payload)
 	}
 	return false
+}
+
+var picoMessageType = reflect.TypeOf((*picobuf.Message)(nil)).Elem()
+
+// nilElementOracle: for every field `[]*T` (T a generated message) with at least one element, the
+// message with element i set to nil marshals to the same bytes as with element i set to an empty T:
+// repeated message elements are never dropped (the reference has no nil elements; an absent element
+// would shift every later one).
+func (c *ctx) nilElementOracle(l *Loaded, name string, msg picobuf.Message, cs func(map[string]string) map[string]string) {
+	rv := reflect.ValueOf(msg)
+	if rv.Kind() != reflect.Ptr || rv.Elem().Kind() != reflect.Struct {
+		return
+	}
+	st := rv.Elem()
+	for i := 0; i < st.NumField(); i++ {
+		f := st.Field(i)
+		if f.Kind() != reflect.Slice || f.Len() == 0 || !f.CanSet() {
+			continue
+		}
+		et := f.Type().Elem()
+		if et.Kind() != reflect.Ptr || et.Elem().Kind() != reflect.Struct || !et.Implements(picoMessageType) {
+			continue
+		}
+		k := c.r.Intn(f.Len())
+		saved := reflect.New(et).Elem()
+		saved.Set(f.Index(k))
+		f.Index(k).Set(reflect.Zero(et))
+		withNil, bad1 := realMarshal(msg)
+		f.Index(k).Set(reflect.New(et.Elem()))
+		withEmpty, bad2 := realMarshal(msg)
+		f.Index(k).Set(saved)
+		c.count("nil_element_cases")
+		if bad1 != "" || bad2 != "" || !c.sameBytes(l, name, withNil, withEmpty) {
+			c.disagree(Disagreement{Kind: "real!=real", Check: "nil-element-is-empty-element",
+				Case: cs(map[string]string{"field_index": fmt.Sprint(i), "element": fmt.Sprint(k)}),
+				Got:  map[string]string{"with_nil": short(hexs(withNil) + bad1), "with_empty": short(hexs(withEmpty) + bad2)}})
+		}
+		return
+	}
 }
